@@ -1,4 +1,127 @@
-(* Props/C17.v — placeholder while the proofs are being written *)
-From BSV Require Import Base.Hex Model.Opcodes Model.Script Model.Asm Spec.AsmSpec.
-Example C17_placeholder : from_asm "OP_1 OP_2" = Ok [BOp 81; BOp 82].
-Proof. vm_compute. reflexivity. Qed.
+(* Props/C17.v — pinned statements of property C17 (script ASM text is a faithful, re-parseable
+   rendering of the script).  Statements only; proofs are in Proofs/AsmProofs.v.
+
+   Model:  Model/Asm.v  (to_asm, from_asm, map_token, split_whitespace, trim)  over Model/Script.v.
+   Spec:   Spec/AsmSpec.v (minimal_pushes, canonical, ambiguous_numeric_push, accepted_token, spec_token,
+           ws_tokens, pad_ws / padded, render_ext / render_plain) over Spec/ScriptTok.v.
+
+   Quantifier of the round trip.  `canonical s` is the shape of every script a parser of the library
+   returns (C17_parsed_scripts_are_canonical); hand-assembled trees such as a lone OpCode(OP_IF) are
+   outside.  `minimal_pushes s`: Push carries 1..75 bytes, PushData uses the smallest OP_PUSHDATAn, and
+   empty data is the OP_0 opcode: the element ScriptBit::Push(vec![]) renders as the empty string and
+   disappears on re-parsing; from bytes it arises only inside C02's truncated-direct-push class, and it
+   is outside this quantifier.
+
+   Known finding (KNOWN_FINDINGS.txt, class ambiguous-numeric-push): a one-byte push 0x10..0x16 renders
+   as "10".."16", which the parser reads as the numeric alias of OP_10..OP_16.  The full-strength
+   statement — the one below without the hypothesis `ambiguous_numeric_push s = false` — is false:
+   C17_refuted_on_class. *)
+From BSV Require Import Base.Hex Gen.Opcodes_gen Model.Opcodes Model.Script Model.Asm Spec.ScriptTok Spec.AsmSpec
+  Proofs.AsmProofs.
+Open Scope list_scope.
+
+(* 1. Round trip: parsing the plain rendering gives the script back — the very same tree, hence the
+      same bytes — for all opcodes, any nesting with empty or missing branches, payloads of any length. *)
+Theorem C17_asm_roundtrip_tree :
+  forall s, canonical s = true -> wf_bits s = true -> no_coinbase s = true -> minimal_pushes s = true ->
+            ambiguous_numeric_push s = false ->
+            from_asm (to_asm false s) = Ok s.
+Proof. exact asm_roundtrip_tree. Qed.
+Print Assumptions C17_asm_roundtrip_tree.
+
+Theorem C17_asm_roundtrip :
+  forall s, canonical s = true -> wf_bits s = true -> no_coinbase s = true -> minimal_pushes s = true ->
+            ambiguous_numeric_push s = false ->
+            exists s', from_asm (to_asm false s) = Ok s' /\ to_bytes s' = to_bytes s.
+Proof. exact asm_roundtrip. Qed.
+Print Assumptions C17_asm_roundtrip.
+
+(* ... in particular for every script obtained from bytes *)
+Theorem C17_parsed_scripts_roundtrip :
+  forall bs s, from_bytes bs = Ok s -> minimal_pushes s = true -> ambiguous_numeric_push s = false ->
+               from_asm (to_asm false s) = Ok s.
+Proof. exact asm_roundtrip_parsed. Qed.
+Print Assumptions C17_parsed_scripts_roundtrip.
+
+Theorem C17_parsed_scripts_are_canonical :
+  forall bs s, from_bytes bs = Ok s -> canonical s = true /\ no_coinbase s = true.
+Proof. exact from_bytes_canonical. Qed.
+Print Assumptions C17_parsed_scripts_are_canonical.
+
+(* 5. The class is a real failure of the library: Push [0x11] renders "11", which parses as OP_11. *)
+Theorem C17_refuted_on_class :
+  let s := [BPush [x11]] in
+  from_bytes [x01; x11] = Ok s /\ canonical s = true /\ wf_bits s = true /\ no_coinbase s = true /\ minimal_pushes s = true /\
+  ambiguous_numeric_push s = true /\ to_asm false s = "11" /\
+  forall s', from_asm (to_asm false s) = Ok s' -> to_bytes s' <> to_bytes s.
+Proof. exact refuted_on_class. Qed.
+Print Assumptions C17_refuted_on_class.
+
+(* 2. A token is accepted iff (after trimming) it is a numeric alias "0".."16", an opcode name of the
+      enum, or even-length hex; an accepted token denotes what the specification says (alias k ->
+      OP_k, name -> its opcode, hex -> a push of the decoded bytes in the minimal push class), and
+      every other token is an error (never a panic). *)
+Theorem C17_asm_accepts_exactly :
+  forall t, (exists b, map_token t = Ok b) <-> accepted_token (trim t).
+Proof. exact asm_accepts_exactly. Qed.
+Print Assumptions C17_asm_accepts_exactly.
+
+Theorem C17_asm_token_denotes :
+  forall t, match spec_token (trim t) with
+            | Some tk => exists b, map_token t = Ok b /\ Proofs.ScriptProofs.tok_of_bit b = tk
+            | None => map_token t = Err
+            end.
+Proof. exact asm_token_denotes. Qed.
+Print Assumptions C17_asm_token_denotes.
+
+(* hex payload text never collides with an opcode name *)
+Theorem C17_opcode_names_not_hex :
+  forall n c, In (n, c) opcode_table -> bytes_of_hex n = None.
+Proof. exact opcode_names_not_hex. Qed.
+Print Assumptions C17_opcode_names_not_hex.
+
+(* 3. Whitespace: the tokens read are exactly the maximal runs of non-whitespace characters, so any
+      whitespace (spaces, tabs, line breaks) before, between and after the tokens is ignored. *)
+Theorem C17_tokens_are_whitespace_runs :
+  forall s, asm_tokens s = ws_tokens s.
+Proof. exact asm_tokens_spec. Qed.
+Print Assumptions C17_tokens_are_whitespace_runs.
+
+Theorem C17_whitespace_ignored :
+  forall l e, padded true l = true -> all_chars ws_char e = true ->
+              from_asm (pad_ws l e) = from_asm (join " " (map snd l)).
+Proof. exact whitespace_ignored_spec. Qed.
+Print Assumptions C17_whitespace_ignored.
+
+Theorem C17_from_asm_total : forall s, from_asm s <> Panic.
+Proof. exact from_asm_no_panic. Qed.
+Print Assumptions C17_from_asm_total.
+
+(* 4. Renderings of a parsed script, stated on the flat tokens read by the independent tokenizer of
+      Spec/ScriptTok.v: the extended form gives, for every push, the word OP_PUSH (direct pushes) or the
+      name of its OP_PUSHDATAn opcode, the decimal payload length and the payload hex. *)
+Theorem C17_extended_states_push :
+  forall bs s ts, from_bytes bs = Ok s -> tokenize_spec bs = TokOk ts -> to_asm true s = render_ext ts.
+Proof. exact extended_states_push. Qed.
+Print Assumptions C17_extended_states_push.
+
+Theorem C17_plain_rendering :
+  forall bs s ts, from_bytes bs = Ok s -> tokenize_spec bs = TokOk ts -> forallb data_nonempty ts = true ->
+                  to_asm false s = render_plain ts.
+Proof. exact plain_rendering_spec. Qed.
+Print Assumptions C17_plain_rendering.
+
+(* non-vacuity: a nested script with an empty branch, a missing branch, an all-digit payload and OP_0
+   satisfies every hypothesis of the round-trip theorem *)
+Example C17_nonvacuous :
+  exists s, from_bytes [x63; x67; x68; x64; x02; x12; x34; x68; x00; x60; x01; x17] = Ok s /\
+            canonical s = true /\ wf_bits s = true /\ no_coinbase s = true /\ minimal_pushes s = true /\
+            ambiguous_numeric_push s = false /\
+            to_asm false s = "OP_IF OP_ELSE OP_ENDIF OP_NOTIF 1234 OP_ENDIF 0 OP_16 17".
+Proof. eexists. repeat split; vm_compute; reflexivity. Qed.
+
+Example C17_whitespace_nonvacuous :
+  padded true [(String "010" "", "OP_1"); (String "013" (String "010" ""), "0a"); (String "009" " ", "16")] = true /\
+  from_asm (pad_ws [(String "010" "", "OP_1"); (String "013" (String "010" ""), "0a"); (String "009" " ", "16")] " ")
+    = Ok [BOp 81; BPush [x0a]; BOp 96].
+Proof. split; vm_compute; reflexivity. Qed.
